@@ -11,6 +11,54 @@ from . import common as C
 from . import replay
 
 
+LONG_GRAMMARS = [
+    ('r = { "a"* }', "r"),
+    ('r = { ("a" | "b")* ~ EOI }', "r"),
+    ('r = { (!"b" ~ ANY)* ~ "b"? }', "r"),
+    ('r = { s* ~ EOI }\ns = { "a" ~ "b"? }\nWHITESPACE = _{ " " }', "r"),
+    ('r = { (s ~ ",")* ~ s? }\ns = @{ ASCII_ALPHA+ }\nWHITESPACE = _{ " " | NEWLINE }\nCOMMENT = _{ "#" ~ (!NEWLINE ~ ANY)* }', "r"),
+    ('r = { PUSH("a")* ~ POP* ~ EOI }', "r"),
+    ('r = { ("a"{2,3})* ~ "a"{,2} ~ EOI }', "r"),
+]
+
+
+def long_inputs(rep, thorough: bool) -> None:
+    """Flat inputs far longer than the enumerated ones: repetitions are loops, so length must not cost recursion depth."""
+    import sys  # noqa: PLC0415
+
+    from . import modes as M  # noqa: PLC0415
+
+    pest = C.import_pest()
+    n = 20000 if not thorough else 200000
+    texts = ["a" * n, ("ab" * n)[:n], "a " * (n // 2), ("ab, cd # x\n" * (n // 10)), "a" * (n - 1) + "b", "a" * (n // 2) + "c" + "a" * (n // 2), ""]
+    old = sys.getrecursionlimit()
+    sys.setrecursionlimit(1000)  # CPython's default: what a user has
+    count = 0
+    try:
+        for g, rule in LONG_GRAMMARS:
+            seen = {}
+            for mode in M.MODES:
+                try:
+                    p, _ = M.build(pest, g, mode)
+                except Exception as e:  # noqa: BLE001
+                    rep.violation({"kind": "build", "grammar": g, "mode": mode}, f"{g!r} failed to build in mode {mode}: {type(e).__name__}: {e}")
+                    continue
+                for i, t in enumerate(texts):
+                    o = M.run_parse(pest, p, rule, t, timeout=120)
+                    o2 = M.run_parse(pest, p, rule, t, timeout=120)
+                    count += 2
+                    if "ok" not in o or o != o2:
+                        rep.violation({"kind": "long-input", "grammar": g, "mode": mode, "rule": rule, "input": f"text #{i}: {t[:24]!r}... ({len(t)} characters)", "observed": {k: v for k, v in o.items() if k != "pairs"}},
+                                      f"{g!r} [{mode}] on a flat input of {len(t)} characters ({t[:16]!r}...): {str({k: v for k, v in o.items() if k != 'pairs'})[:160]}{'' if o == o2 else ' (second call differs)'}")
+                    key = (i, o.get("ok"), str(o.get("pairs"))[:2000] if o.get("ok") else None)
+                    if seen.setdefault(i, key) != key:
+                        rep.violation({"kind": "long-input-modes", "grammar": g, "mode": mode, "rule": rule, "input": f"text #{i} ({len(t)} characters)"}, f"{g!r} on a flat input of {len(t)} characters: mode {mode} and mode interp disagree on success / tree")
+    finally:
+        sys.setrecursionlimit(old)
+    rep.evaluations += count
+    rep.extra["long_flat_inputs"] = {"length": n, "calls": count}
+
+
 def run(tier: str) -> int:
     rep = C.Report("C07", tier)
     rep.distinct = None
@@ -54,6 +102,7 @@ def run(tier: str) -> int:
         ]
     for f in fams:
         replay.run_family(rep, f, "total", modes)
+    long_inputs(rep, thorough)
     rep.rule = "union of the well-formed families of spec/Families.tla x inputs to MaxLen x four execution modes, each call made twice; a case = (grammar, input, start); non-trivial = reference outcome is a successful parse"
     rep.exhaustive = False
     rep.assumptions = ["domain = WellFormed grammars (no left recursion, no undefined rule, no nullable repetition) as in the statement"]
